@@ -518,3 +518,39 @@ Example cache_entry_keeps_a_signed_reply :
   (exists b, fst (cache_stripped_c (is_dnssec_obj [2%N]) (snd r) wc_msg) = LOk b /\
              u16_at b 6 = 1%N /\ u16_at b 10 = 1%N).
 Proof. exact cache_entry_witness. Qed.
+
+(* ---- the consumers that use the bytes on the spot ---- *)
+
+(* "a reply's wire form is the same whether or not the fast packer handled it":
+   responseWriter.WriteMsg hands the transport either the pooled packer's bytes (declared sink, not
+   an internal writer, TryPack handled) or the caller's message for the library's own Pack — the
+   wire form is the library's Pack of the message either way, from any pooled state *)
+Theorem reply_wire_form_is_the_librarys : forall direct internal st m, pool_inv name body dict [] [] st ->
+  wire_form (fst (write_msg_c direct internal st m)) = fst (lib_pack_c m) /\
+  (forall m', fst (write_msg_c direct internal st m) = SentMsg m' -> m' = m) /\
+  (forall b, fst (write_msg_c direct internal st m) = SentBytes b -> direct = true /\ internal = false) /\
+  pool_inv name body dict [] [] (snd (write_msg_c direct internal st m)).
+Proof. exact reply_wire_form_l. Qed.
+Print Assumptions reply_wire_form_is_the_librarys.
+
+(* validatedNegativeProofFingerprint: for ANY hash function, the seal of a proof is the hash of the
+   library's Pack of {Rcode, Ns} (invalid when the library errors), whether TryPack hashed it in the
+   pooled buffer or declined — so a seal taken at one time compares equal at any later time *)
+Theorem fingerprint_is_the_hash_of_the_librarys_bytes : forall (D : Type) (H : buf -> D) st m,
+  pool_inv name body dict [] [] st ->
+  fst (fingerprint_c H st m) = fp_of_lib H (fst (lib_pack_c (sealed_view m))) /\
+  pool_inv name body dict [] [] (snd (fingerprint_c H st m)).
+Proof. exact fingerprint_is_hash_of_libpack_l. Qed.
+Print Assumptions fingerprint_is_the_hash_of_the_librarys_bytes.
+
+Theorem fingerprint_independent_of_the_pool : forall (D : Type) (H : buf -> D) st1 st2 m,
+  pool_inv name body dict [] [] st1 -> pool_inv name body dict [] [] st2 ->
+  fst (fingerprint_c H st1 m) = fst (fingerprint_c H st2 m).
+Proof. exact fingerprint_pool_independent_l. Qed.
+Print Assumptions fingerprint_independent_of_the_pool.
+
+Example consumers_see_the_signed_reply :
+  (exists b, fst (write_msg_c true false dirty_state wc_msg) = SentBytes b /\ fst (lib_pack_c wc_msg) = LOk b) /\
+  (exists m', fst (write_msg_c true true dirty_state wc_msg) = SentMsg m') /\
+  fst (fingerprint_c (fun b => b) dirty_state wc_msg) = FpSum [0;0;0;0;0;0;0;0;0;0;0;0]%N.
+Proof. exact consumers_witness. Qed.
